@@ -31,10 +31,13 @@ def _chain(*fs: Callable[[Obs, RefResult], Optional[str]]) -> Callable[[Obs, Ref
 def _reg(prop: str, name: str, f: Callable[[], Spec], verdict: Any, *, goals: Tuple[str, ...] = (),
          tier: str = "quick", judge_hang: bool = False, beh_kw: Optional[Dict[str, Any]] = None,
          cfg_fn: Any = None, budget: float = 300, parts: Any = None, extra_syms: Tuple[str, ...] = (),
-         rev: bool = True) -> None:
+         rev: bool = True, param_orders: bool = False) -> None:
     if parts is None:
         parts = auto_parts(f(), rev=rev)
-    register(Job(prop, name, engine_harness(f, verdict, judge_hang=judge_hang, beh_kw=beh_kw, cfg_fn=cfg_fn, rev=rev),
+        if param_orders:
+            parts = [dict(p, reversed_param_order=o) for p in parts for o in (0, 1)]
+    register(Job(prop, name, engine_harness(f, verdict, judge_hang=judge_hang, beh_kw=beh_kw, cfg_fn=cfg_fn, rev=rev,
+                                            param_orders=param_orders),
                  tier=tier, budget_s=budget, goals=goals, parts=parts,
                  doc=doc(name, list(SYMS) + list(extra_syms))))
 
@@ -556,3 +559,21 @@ for prop in ("C01", "C02", "C05", "C13"):
     if prop == "C13":
         continue
     _reg(prop, "r2_chain_none_output", chain_none_output, _VERD[prop], tier="quick", judge_hang=(prop == "C02"), budget=200)
+
+
+# ------------------------------------------------------------------------------------ declaration order (thorough)
+# The manager launches nodes in a topological order whose tie-breaks follow the builder's traversal, i.e. the order in which
+# parameters are declared.  These jobs run templates with both the declared and the reversed parameter order of every node.
+ORDER_T = [("switch_shared_case", C.switch_shared_case), ("switch_two_deciders", C.switch_two_deciders),
+           ("switch_two_deciders_deep", lambda: C.switch_two_deciders(1)), ("switch_case_also_input", C.switch_case_also_input),
+           ("oneof_sibling", C.oneof_sibling), ("oneof_chained", C.oneof_chained), ("oneof_diamond", C.oneof_diamond),
+           ("oneof_shared_inflight", C.oneof_shared_inflight), ("rec_inner_start", lambda: C.rec_inner_start(1)),
+           ("rec_side_input", C.rec_side_input), ("fan", C.fan)]
+for prop in ("C01", "C02", "C03", "C04", "C09", "C10"):
+    for nm, f in ORDER_T:
+        if prop == "C09" and not nm.startswith("switch"):
+            continue
+        if prop == "C10" and not nm.startswith("oneof"):
+            continue
+        _reg(prop, "order_" + nm, f, _VERD[prop], tier="thorough", judge_hang=(prop in ("C02", "C09", "C10")), budget=2400,
+             param_orders=True, extra_syms=("declared or reversed parameter order of every node",))
